@@ -472,6 +472,24 @@ pub fn decide_eq(a: Op, b: Op) -> bool {
         // a non-zero polynomial of degree < p is not the zero function and (not being a non-zero
         // constant) has roots in general position: undetermined without hypotheses
         None
+    } else if path.iter().all(|h| matches!(h, Atom::Ne(..))) {
+        // only disequalities assumed so far (zero-tests taken as non-zero): they cannot force a
+        // non-zero polynomial to vanish; `a != b` is known if it is literally one of them
+        // (up to a unit), otherwise the comparison is undetermined (and, under AssumeNe,
+        // becomes one more assumption). No solver call needed.
+        let (dm, _) = d.monic();
+        let known = path.iter().any(|h| match h {
+            Atom::Ne(x, y) => {
+                let e = NORM.with(|n| n.borrow_mut().diff(*x, *y));
+                !e.is_zero() && e.monic().0 == dm
+            }
+            _ => false,
+        });
+        if known {
+            Some(false)
+        } else {
+            None
+        }
     } else {
         match valid(&path, Atom::Eq(a, b)) {
             Some(true) => Some(true),
